@@ -1,11 +1,14 @@
 import CmModel.Proto
 import CmModel.Lab
 import CmModel.Hsl
+import CmModel.Descent
 /-! Line-protocol driver: one operation per input line, one result line per operation. -/
 open Cm Cm.Proto
 
 def fmtRgb (c : RGB) : String := s!"{c.1} {c.2.1} {c.2.2}"
 def fmtT (t : Triple Float) : String := s!"{hexOfFloat t.1} {hexOfFloat t.2.1} {hexOfFloat t.2.2}"
+
+def fmtOpt : Option RGB → String | some c => fmtRgb c | none => "none"
 
 def rgbOf (a b c : String) : Option RGB := do
   let r ← parseInt a; let g ← parseInt b; let bl ← parseInt c; pure (r, g, bl)
@@ -42,6 +45,23 @@ def handle (toks : List String) : Option String :=
       let t := rgbToHslText (α := Float) c
       let back := match hslTextToRgb t with | some c' => fmtRgb c' | none => "none"
       pure (fmtT t ++ " " ++ back)
+  | ["caf", r, g, b, r2, g2, b2, large, mode, premium] => do
+      let t ← rgbOf r g b; let bg ← rgbOf r2 g2 b2; let m ← parseInt mode
+      let (c, ok) := checkAndFixF t bg (large == "1") m (premium == "1")
+      pure (fmtRgb c ++ (if ok then " 1" else " 0"))
+  | "bs" :: r :: g :: b :: r2 :: g2 :: b2 :: thr :: target :: [] => do
+      let t ← rgbOf r g b; let bg ← rgbOf r2 g2 b2
+      let thr ← floatOfHex thr; let target ← floatOfHex target
+      pure (fmtOpt (binarySearch floatLeaf t bg thr target))
+  | "gd" :: r :: g :: b :: r2 :: g2 :: b2 :: thr :: target :: [] => do
+      let t ← rgbOf r g b; let bg ← rgbOf r2 g2 b2
+      let thr ← floatOfHex thr; let target ← floatOfHex target
+      pure (fmtOpt (gradientDescent floatLeaf (descendImpl floatLeaf) t bg thr target))
+  | "gen" :: r :: g :: b :: r2 :: g2 :: b2 :: target :: minC :: sched => do
+      let t ← rgbOf r g b; let bg ← rgbOf r2 g2 b2
+      let target ← floatOfHex target; let minC ← floatOfHex minC
+      let sched ← sched.mapM floatOfHex
+      pure (fmtRgb (genAccessible floatLeaf (descendImpl floatLeaf) t bg target minC sched))
   | ["pmod", x, y] => do
       let x ← floatOfHex x; let y ← floatOfHex y; pure (hexOfFloat (Num.pmod x y))
   | ["round", x] => do let x ← floatOfHex x; pure (toString (Num.roundHE x))
